@@ -89,6 +89,11 @@ PROBES = {
  "calling fiber": PRE + "var outer = Fiber.new(|| { var w = %s; var inner = Fiber.new(|| { junk(); junk(); Fiber.yield(2); }); inner.call(); print(w); print(w[1]); }); outer.call();" % WIT,
  "fiber yield value": PRE + "var f = Fiber.new(|| { Fiber.yield(%s); }); var r = f.call(); junk(); junk(); print(r); print(r[1]);" % WIT,
  "fiber only held by variable": PRE + "fn mk() { var g = Fiber.new(|| { var w = %s; Fiber.yield(w); return 3; }); g.call(); return g; } var f = mk(); junk(); junk(); print(f.call());" % WIT,
+ # ... with several captured variables opened in every order: each open variable must keep the fiber alive by itself, wherever it
+ # was spliced into the fiber's list of open variables
+ "closures over variables of a dropped suspended fiber, earlier one captured last": PRE + "var g = nil; fn mk() { var f = Fiber.new(|| { var lo = %s; var hi = [1]; var gh = || hi; g = || lo; Fiber.yield(1); print(lo); }); f.call(); } mk(); junk(); junk(); junk(); print(g()); print(g()[1]);" % WIT,
+ "closures over variables of a dropped suspended fiber, middle one captured last": PRE + "var g = nil; fn mk() { var f = Fiber.new(|| { var lo = [0]; var mid = %s; var hi = [1]; var gh = || hi; var gl = || lo; g = || mid; Fiber.yield(1); print(mid); }); f.call(); } mk(); junk(); junk(); junk(); print(g()); print(g()[1]);" % WIT,
+ "closures over variables of a dropped suspended fiber, callee frame above": PRE + "var g = nil; fn mk() { var f = Fiber.new(|| { var lo = %s; fn deeper() { var top = [2]; var gt = || top; g = || lo; Fiber.yield(1); return top; } deeper(); }); f.call(); } mk(); junk(); junk(); junk(); print(g()); print(g()[1]);" % WIT,
  "closure over variable of a dropped suspended fiber": PRE + "var g = nil; fn mk() { var f = Fiber.new(|| { var w = %s; g = || w; Fiber.yield(1); print(w); }); f.call(); } mk(); junk(); junk(); junk(); print(g());" % WIT,
  "module attributes": "import \"m1\"; fn junk() { return [[1], (2, 3)]; } junk(); junk(); print(m1.w); print(m1.w[1]); print(m1.f());",
  "value held during vec build": PRE + "var v = [%s, junk(), junk(), %s]; print(v[0]); print(v[3]);" % (WIT, WIT),
